@@ -451,7 +451,10 @@ def op_c01(case):
     r = {"py_ok": py["ok"]}
     if not py["ok"]:
         r["py_exc"] = py["exc"]
-    im = obs_parse(src, mode, want=("rows", "compile") if case.get("compile") else ("rows",))
+    if case.get("entry") == "file":     # the same text through parse_file (written as UTF-8, no newline translation)
+        im = obs_parse_file(src, want=("rows",))
+    else:
+        im = obs_parse(src, mode, want=("rows", "compile") if case.get("compile") else ("rows",))
     r["impl_ok"] = bool(im.get("ok"))
     r["impl_hang"] = bool(im.get("hang"))
     r["impl_exc"] = im.get("exc")
@@ -706,11 +709,19 @@ def op_c07(case):
 _alone: dict = {}
 
 
-def _body_rows(src: str):
-    """rows of the statements of parse_string(src).body (depth-normalised), or the exception"""
+def _body_rows(src: str, entry: str = "string"):
+    """rows of the statements of parse_string(src).body (depth-normalised), or the exception; entry="file": through parse_file"""
     try:
         arm()
-        tree = P().parse_string(src, mode="exec")
+        if entry == "file":
+            import pathlib
+
+            path = os.path.join(_tmpdir(), "seq.xsh")
+            with open(path, "w", encoding="utf-8", newline="") as fh:
+                fh.write(src)
+            tree = P().parse_file(pathlib.Path(path))
+        else:
+            tree = P().parse_string(src, mode="exec")
     except HangTimeout:
         return {"hang": True}
     except BaseException as e:  # noqa: BLE001
@@ -739,12 +750,13 @@ def _shift(rows, dl):
 
 def op_c14(case):
     parts = case["parts"]
-    whole = _body_rows("".join(parts))
+    entry = case.get("entry", "string")
+    whole = _body_rows("".join(parts), entry)
     exp, dl, alone_exc = [], 0, None
     for p in parts:
-        if p not in _alone:
-            _alone[p] = _body_rows(p)
-        a = _alone[p]
+        if (p, entry) not in _alone:
+            _alone[(p, entry)] = _body_rows(p, entry)
+        a = _alone[(p, entry)]
         if "rows" not in a:
             alone_exc = {"part": p, "outcome": a}
             break
@@ -1205,7 +1217,13 @@ def op_c18(case):
             arm()
             outcome = "tree"
             try:
-                P().parse_string(src, mode="exec")
+                if case.get("verbose"):      # the trace goes to a sink; the work must not depend on it
+                    import contextlib
+
+                    with contextlib.redirect_stdout(io.StringIO()):
+                        P().parse_string(src, mode="exec", verbose=True)
+                else:
+                    P().parse_string(src, mode="exec")
             except HangTimeout:
                 outcome = "timeout"
             except RecursionError:
